@@ -731,7 +731,7 @@ func (r *Run) onQuiescent() {
 		r.mu.Lock()
 		r.res.States = append(r.res.States, d.Hash)
 		if traceHooks {
-			fmt.Printf("TRACE quiescent dump=%x txsize=%d txid=%d\n", d.Hash, tx.Size(), tx.ID())
+			tracef("TRACE quiescent dump=%x txsize=%d txid=%d\n", d.Hash, tx.Size(), tx.ID())
 		}
 		r.lastDump = d
 		restored := r.expectRestored
